@@ -34,7 +34,8 @@ class Mon(object):
 
 
 EXTRA = [['raw', 4, 1], ['raw', 3, 1], ['raw', 3, 0], ['raw', 5, 3], ['raw', 128, 5], ['raw', 1, 5], ['raw', 2, 3],
-         ['rest-update'], ['rest-rr'], ['rest-bin'], ['queue-update']]
+         ['rest-update'], ['rest-rr'], ['rest-bin'], ['queue-update'], ['rest-rr-unsupported'], ['rest-update-bad'],
+         ['rest-rr-malformed']]
 
 
 def enabled(d):
@@ -71,6 +72,19 @@ def apply(d, mon, ev):
         d.history.append(ev)
     elif k == 'rest-rr':
         sim.rest('POST', '/v1/peer/10.0.0.2/send/route-refresh', {'afi': 1, 'safi': 1})
+        sim.reactor.settle(fire_due=True)
+        d.history.append(ev)
+    elif k == 'rest-rr-unsupported':
+        sim.rest('POST', '/v1/peer/10.0.0.2/send/route-refresh', {'afi': 1 + len(d.history) % 2, 'safi': 128})
+        sim.reactor.settle(fire_due=True)
+        d.history.append(ev)
+    elif k == 'rest-rr-malformed':
+        sim.rest('POST', '/v1/peer/10.0.0.2/send/route-refresh', {'afi': 'x', 'safi': 70000})
+        sim.reactor.settle(fire_due=True)
+        d.history.append(ev)
+    elif k == 'rest-update-bad':
+        sim.rest('POST', '/v1/peer/10.0.0.2/send/update', {'attr': {'1': 7, '2': [[2, [65001]]], '3': 'not-an-address'},
+                                                           'nlri': ['10.3.0.0/16']})
         sim.reactor.settle(fire_due=True)
         d.history.append(ev)
     elif k == 'rest-bin':
@@ -146,7 +160,7 @@ def pick(en, choice):
     weighted = []
     for ev in en:
         w = 4 if ev[0] in ('ok', 'tick', 'ka') or (ev[0] == 'open' and ev[1] == 'valid') else 1
-        if ev[0] in ('raw', 'rest-update', 'rest-rr', 'upd', 'rr', 'queue-update', 'rest-bin'):
+        if ev[0] in ('raw', 'rest-update', 'rest-rr', 'upd', 'rr', 'queue-update', 'rest-bin', 'rest-rr-unsupported', 'rest-update-bad', 'rest-rr-malformed'):
             w = 2
         if ev[0] == 'stop':
             w = 1
